@@ -71,11 +71,14 @@ theorem delete_change_yank_never_panic (lb : LB) (mk : MK) (reg : RegName) (regs
   obtain ⟨r1, h1⟩ := getRegisterContent_total .delete lb mk
   obtain ⟨r3, h3⟩ := getRegisterContent_total .change lb mk
   obtain ⟨r2, h2⟩ := getRegisterContent_total .yank lb mk
-  refine ⟨⟨⟨r1.2.flatten, writeReg regs reg r1.1⟩, ?_⟩, ⟨⟨r3.2.flatten, writeReg regs reg r3.1⟩, ?_⟩,
-    ⟨⟨lb.gs.flatten, writeReg regs reg r2.1⟩, ?_⟩⟩
-  · simp [execVerbText, h1, Except.map]
-  · simp [execVerbText, h3, Except.map]
-  · simp [execVerbText, h2, Except.map]
+  by_cases hn : mk.isNull = true
+  · exact ⟨⟨⟨lb.gs.flatten, regs⟩, by simp [execVerbText, hn]⟩, ⟨⟨lb.gs.flatten, regs⟩, by simp [execVerbText, hn]⟩,
+      ⟨⟨lb.gs.flatten, regs⟩, by simp [execVerbText, hn]⟩⟩
+  · refine ⟨⟨⟨r1.2.flatten, writeReg regs reg r1.1⟩, ?_⟩, ⟨⟨r3.2.flatten, writeReg regs reg r3.1⟩, ?_⟩,
+      ⟨⟨lb.gs.flatten, writeReg regs reg r2.1⟩, ?_⟩⟩
+    · simp [execVerbText, hn, h1, Except.map]
+    · simp [execVerbText, hn, h3, Except.map]
+    · simp [execVerbText, hn, h2, Except.map]
 
 /-- `this_line()` (`line_bounds(cursor_line_number()).unwrap()`) is always `Some` for a cursor inside the
 text: the unwrap cannot fail. -/
